@@ -4,6 +4,7 @@ import ConfModel.Spec.WireChecks
 import ConfModel.Model.ConnectJson
 import ConfModel.Spec.ContentCoding
 import ConfModel.Spec.ConnectJson
+import ConfModel.Spec.BinMeta
 namespace ConfModel.Driver.C13
 open Lean ConfModel.Driver ConfModel.WireChecks ConfModel.WireChecksSpec
 open ConfModel.ServerTimeout (Bytes)
@@ -75,10 +76,30 @@ structure Examined where
   hdrs : Hdrs
   fb2 : List String
   dec : Bytes → DetailsDec
+  /-- checkBinaryMetadata on the parsed trailers, when the op reports it -/
+  fb3 : Option (List String) := none
 
 def examinedOf (impl : Json) : Examined :=
   { fb1 := strList (field impl "fb1"), hdrs := hdrsOf (field impl "headers"),
-    fb2 := strList (field impl "fb2"), dec := decOf (field impl "oracle") }
+    fb2 := strList (field impl "fb2"), dec := decOf (field impl "oracle"),
+    fb3 := if isNull (field impl "fb3") then none else some (strList (field impl "fb3")) }
+
+def binCls (f : BinMeta.BinFb) : String := match f with | .padded => "bm:padded" | .invalid => "bm:invalid"
+
+def binOfCls (c : String) : Option BinMeta.BinFb :=
+  if c == "bm:padded" then some .padded else if c == "bm:invalid" then some .invalid else none
+
+/-- the binary-metadata examination of parsed trailers: agreement with the model and the
+property's predicate on the implementation's output (vacuous when the op does not report it or a
+name is not ASCII) -/
+def judgeBin (e : Examined) : Bool × Bool :=
+  match e.fb3 with
+  | none => (true, true)
+  | some fb3 =>
+    if !e.hdrs.all (fun kv => isASCII kv.1) then (true, true) else
+    let m := BinMeta.checkBinaryMetadata e.hdrs
+    let known := fb3.filterMap binOfCls
+    (m.map binCls == fb3, known.length == fb3.length && BinMetaSpec.binHolds e.hdrs known)
 
 /-- agreement of the model with the implementation on one block; the model's result -/
 def judgeBlock (block : Bytes) (e : Examined) : Bool × Json × List EsFb × List StFb :=
@@ -328,8 +349,9 @@ def handle : Handler := fun op inp impl =>
     let e := examinedOf impl
     let (agree, model, fb1, fb2) := judgeBlock block e
     let unknown := unknownClasses e
-    let holds := unknown.isEmpty && blockHolds block fb1 && statusHolds e.dec e.hdrs fb2
-    { agree := agree, holds := holds, nontrivial := !(e.fb1.isEmpty && e.fb2.isEmpty), model := model,
+    let (binAgree, binOk) := judgeBin e
+    let holds := unknown.isEmpty && blockHolds block fb1 && statusHolds e.dec e.hdrs fb2 && binOk
+    { agree := agree && binAgree, holds := holds, nontrivial := !(e.fb1.isEmpty && e.fb2.isEmpty), model := model,
       why := if holds then "" else
         s!"block well-formed={blockOK block} must flag {reprStr (mustFlag block)} got {e.fb1}; status well-formed={statusOK e.dec e.hdrs} must flag {reprStr (mustFlagStatus e.dec e.hdrs)} got {e.fb2} {unknown}",
       cls := if blockOK block then "well-formed" else "malformed" }
@@ -345,15 +367,41 @@ def handle : Handler := fun op inp impl =>
     let (agree, model, _, _) := judgeBlock block e
     let renderAgree := mBlock == block || !trailers.all (fun (n, _) => isASCII n)
     let hyp := trailersOK trailers && (1 ≤ code && code ≤ 16)
-    let clean := e.fb1.isEmpty && e.fb2.isEmpty
+    -- binary trailers of the test case: valid unpadded base64 values must reach the client one by one
+    let binFine := trailers.all (fun (n, vs) => !BinMeta.examined n || vs.all BinMetaSpec.unpaddedB64)
+    let fb3 := e.fb3.getD []
+    let (binAgree, _) := judgeBin e
+    let clean := e.fb1.isEmpty && e.fb2.isEmpty && (!binFine || fb3.isEmpty)
     let (holds, why) : Bool × String :=
       if !hyp || clean then (true, "")
+      else if e.fb1.isEmpty && e.fb2.isEmpty then
+        (false, s!"the reference server's own end-stream message carries binary trailers the reference client reports as badly encoded ({fb3}), although every value of the test case is unpadded base64")
       else if !noEdgeSpace msg && nDetails > 0 && e.fb1.isEmpty && e.fb2 == ["st:details-msg"] then
         (false, "F16: own gRPC-Web end-stream for a message with leading/trailing space: grpc-message is trimmed, then reported to disagree with grpc-status-details-bin")
       else (false, s!"feedback on the reference server's own end-stream message: {e.fb1} {e.fb2}")
-    { agree := agree && renderAgree && (detailsBin.isSome == (nDetails > 0)), holds := holds, nontrivial := hyp,
+    { agree := agree && binAgree && renderAgree && (detailsBin.isSome == (nDetails > 0)), holds := holds, nontrivial := hyp,
       model := Json.mkObj [("block", hex mBlock), ("examined", model)], why := why,
       cls := if !hyp then "hypothesis-violated" else if noEdgeSpace msg then "plain" else "edge-space" }
+  | "binmd" =>
+    let md : List (Bytes × List Bytes) := (arr (field inp "md")).map fun e =>
+      (unhex (str (field e "k")), (strList (field e "v")).map unhex)
+    let fb := strList (field impl "fb")
+    let cls (f : BinMeta.BinFb) : String := match f with | .padded => "bm:padded" | .invalid => "bm:invalid"
+    let ofCls (c : String) : Option BinMeta.BinFb :=
+      if c == "bm:padded" then some .padded else if c == "bm:invalid" then some .invalid else none
+    let m := BinMeta.checkBinaryMetadata md
+    let known := fb.filterMap ofCls
+    let own := field impl "own"
+    -- what ConvertMetadataToProtoHeader wrote for the raw metadata is accepted silently
+    let ownOk := isNull own || (strList own).isEmpty
+    let ascii := md.all (fun e => isASCII e.1)
+    let holds := known.length == fb.length && BinMetaSpec.binHolds md known && ownOk
+    { agree := !ascii || m.map cls == fb, holds := !ascii || holds, nontrivial := !fb.isEmpty || !isNull own,
+      model := toJson (m.map cls),
+      why := if holds then "" else
+        if !ownOk then s!"checkBinaryMetadata reports {strList own} on -bin values written by the repository's own encoder"
+        else s!"binary metadata: examined values {(BinMetaSpec.examinedValues md).map hex}, feedback {fb}",
+      cls := if !isNull own then "own" else if (BinMetaSpec.examinedValues md).all BinMetaSpec.unpaddedB64 then "well-formed" else "malformed" }
   | "cerr" | "cend" => judgeJSON (op == "cend") (str (field inp "kind")) impl
   | "zcerr" | "zcend" =>
     -- the same judgement as cerr / cend, on the feedback of the complete exchange
